@@ -3,6 +3,7 @@ import WsModel.Endpoint
 import WsModel.Spec.Rfc6455
 import WsModel.Monitor
 import WsModel.Handshake.Model
+import WsModel.Handshake.Run
 
 /-! Line-protocol driver: replays harness transcripts through the model and prints the model's
 observations in the same canonical form, so the two streams can be diffed. -/
@@ -509,6 +510,17 @@ def showHsErr : HsErr → String
   | .http status body => s!"Http({status},{match body with | some b => hex b | none => "none"})"
 
 
+def parseCallback (spec : String) (statusLine : Bytes) : Callback :=
+  match spec.splitOn ":" with
+  | ["none"] => .none_
+  | "accept" :: hs :: _ => .accept (parseKvList hs)
+  | ["accept"] => .accept []
+  | "reject" :: status :: body :: rest =>
+    .reject (status.toNat?.getD 0) statusLine (parseKvList (rest.headD "-"))
+      (if body == "none" then none else some (unhex body))
+  | _ => .none_
+
+
 /-- executable transcription of the property's conditions on a parsed request head (C15) -/
 def validUpgradeB (h : RawHead) : Bool :=
   let find (name : String) : Option Bytes := hget h.headers name.toUTF8.toList
@@ -527,7 +539,7 @@ def validUpgradeB (h : RawHead) : Bool :=
 def isPrefixOf (p l : Bytes) : Bool := l.take p.length == p
 
 /-- monitors on a handshake case: impl lines only -/
-def monHs (isServer : Bool) (lines : Array String) (cbSpec : String) : List String := Id.run do
+def monHs (isServer : Bool) (lines : Array String) (cbSpec : String) (statusLine : Bytes) : List String := Id.run do
   let mut out : List String := []
   let mut wire : Bytes := []
   let mut lastComplete : Option (Nat × RawHead) := none
@@ -561,6 +573,13 @@ def monHs (isServer : Bool) (lines : Array String) (cbSpec : String) : List Stri
   else out := out ++ ["mon C17 ok"]
   let status101 : Bytes := "HTTP/1.1 101".toUTF8.toList
   if isServer then
+    -- C17: what is written is a prefix of the one response the specification dictates: nothing lost, nothing repeated
+    match lastComplete with
+    | some (size, h) =>
+      if size == lastLen then
+        let expected := (serverSpec (parseCallback cbSpec statusLine) h).1
+        if !(isPrefixOf wire expected) then out := out ++ ["mon C17 FAIL response-bytes-lost-or-repeated"]
+    | none => pure ()
     let valid := match lastComplete with
       | some (size, h) => validUpgradeB h && size == lastLen
       | none => false
@@ -627,16 +646,6 @@ inductive HsStage where
   | clientMid (m : ClientMid)
   | socket (w : World)
   | dead
-
-def parseCallback (spec : String) (statusLine : Bytes) : Callback :=
-  match spec.splitOn ":" with
-  | ["none"] => .none_
-  | "accept" :: hs :: _ => .accept (parseKvList hs)
-  | ["accept"] => .accept []
-  | "reject" :: status :: body :: rest =>
-    .reject (status.toNat?.getD 0) statusLine (parseKvList (rest.headD "-"))
-      (if body == "none" then none else some (unhex body))
-  | _ => .none_
 
 def optHex (s : Option String) : Option Bytes :=
   match s with
@@ -793,7 +802,7 @@ partial def runHsCase (lines : Array String) : Array String := Id.run do
           || tag == "reqheaders" then
         i := i + 1
       else if tag == "end" then
-        for m in monHs isServer lines ((kv hcfg "callback").getD "none") do out := out.push m
+        for m in monHs isServer lines ((kv hcfg "callback").getD "none") statusLine do out := out.push m
         out := out.push line
         i := i + 1
       else
